@@ -146,20 +146,27 @@ TagBytes(t) == CASE t = "S" -> <<83>> [] t = "N" -> <<78>> [] t = "B" -> <<66>> 
                  [] t = "NULL" -> <<78,85,76,76>> [] t = "L" -> <<76>> [] t = "M" -> <<77>>
                  [] t = "SS" -> <<83,83>> [] t = "NS" -> <<78,83>> [] t = "BS" -> <<66,83>>
 
+\* A function whose first argument is not a document path (attribute_exists(:v), begins_with(size(a), :v)), or attribute_type
+\* with a path as type name: DynamoDB refuses some of these and evaluates others; the properties say nothing about them, so
+\* every outcome is allowed (only totality is demanded of the code there).
+AnyO == {"T", "F", "E"}
 FnO(f, args, item, names, values) ==
   LET A(i) == Opd(args[i], item, names, values) IN
   CASE f \in {"attribute_exists", "attribute_not_exists"} ->
-         IF Len(args) # 1 \/ args[1].k # "path" THEN {"E"}
+         IF Len(args) # 1 THEN {"E"}
+         ELSE IF args[1].k # "path" THEN AnyO
          ELSE IF A(1).st = "err" THEN {"E"}
          ELSE B2O((A(1).st = "ok") = (f = "attribute_exists"))
     [] f = "attribute_type" ->
-         IF Len(args) # 2 \/ args[1].k # "path" \/ args[2].k # "val" THEN {"E"}
+         IF Len(args) # 2 THEN {"E"}
+         ELSE IF args[1].k # "path" \/ args[2].k # "val" THEN AnyO
          ELSE IF A(1).st = "err" \/ A(2).st = "err" THEN {"E"}
          ELSE IF ~TypeNameOK(A(2).v) THEN {"E"}
          ELSE IF A(1).st = "missing" THEN {"F"}
          ELSE B2O(TagBytes(A(1).v.t) = A(2).v.s)
     [] f = "begins_with" ->
-         IF Len(args) # 2 \/ args[1].k # "path" THEN {"E"}
+         IF Len(args) # 2 THEN {"E"}
+         ELSE IF args[1].k # "path" THEN AnyO
          ELSE IF A(1).st = "err" \/ A(2).st = "err" THEN {"E"}
          ELSE IF A(2).st = "soft" THEN Lenient
          ELSE IF A(2).st = "ok" /\ A(2).lit /\ A(2).v.t \notin {"S","B"} THEN (IF A(1).st = "missing" THEN Lenient ELSE {"E"})
@@ -167,7 +174,8 @@ FnO(f, args, item, names, values) ==
          ELSE IF A(1).v.t = A(2).v.t /\ A(1).v.t \in {"S","B"} THEN B2O(IsPrefixB(Pay(A(2).v), Pay(A(1).v)))
          ELSE Lenient
     [] f = "contains" ->
-         IF Len(args) # 2 \/ args[1].k # "path" THEN {"E"}
+         IF Len(args) # 2 THEN {"E"}
+         ELSE IF args[1].k # "path" THEN AnyO
          ELSE IF A(1).st = "err" \/ A(2).st = "err" THEN {"E"}
          ELSE IF A(2).st = "soft" THEN Lenient
          ELSE IF A(1).st = "missing" \/ A(2).st = "missing" THEN {"F"}
